@@ -498,11 +498,11 @@ pub fn trace(args: &[String]) -> i32 {
     let mut out = Out::create(arg_req(args, "--out"));
     for run in first..first + runs {
         let mut rng = run_rng(seed, 0xC06, run);
-        if run % 120 == 7 || run % 120 == 8 || run % 120 == 9 {
+        if run % 360 == 7 || run % 360 == 8 || run % 360 == 9 {
             // a LARGE population whose only extreme members sit at a chosen position (first, last,
             // around 256 / 1024): best, worst, whole-population and small tournaments; three in a row of
             // the same size (the extreme members move)
-            let n = [257usize, 1000, 1024, 1030, 1279, 4097, 5000, 8200, 16_500][run_rng(seed, 0xC06A, run / 120).random_range(0..9)];
+            let n = [257usize, 1000, 1024, 1030, 1279, 4097, 5000, 8200, 16_500][run_rng(seed, 0xC06A, run / 360).random_range(0..9)];
             let spots = [0usize, 1, 255, 256, 511, n / 2, n - 2, n - 1];
             let (hi, mut lo) = (spots[rng.random_range(0..8)].min(n - 1), spots[rng.random_range(0..8)].min(n - 1));
             if lo == hi {
